@@ -23,6 +23,7 @@ type c20Op struct {
 
 type c20Env struct {
 	Kind string `json:"kind"` // "change", "corrupt", "delete", "create", "heal"
+	Disk int    `json:"disk,omitempty"`
 	File string `json:"file,omitempty"`
 	Ver  int    `json:"ver,omitempty"`
 }
@@ -40,6 +41,8 @@ type c20Spec struct {
 	Loaders []string   `json:"loaders"`
 	Shared  bool       `json:"sets_share_one_loader_object"`
 	Disk    *DiskSpec  `json:"disk"`
+	Disk1   *DiskSpec  `json:"disk1,omitempty"` // second loader's disk (NLoad == 2)
+	NLoad   int        `json:"loaders_per_set"`
 	Phases  []c20Phase `json:"phases"`
 	Strat   string     `json:"strategy"`
 	strat   Strategy
@@ -91,9 +94,9 @@ func (sp *c20Spec) spelling(set, name, variant int) string {
 	return sp.Spell[name]
 }
 
-func c20TopContent(name string, ver int, hasInc bool, inc string, corrupt bool) string {
+func c20TopContent(name string, ver, disk int, hasInc bool, inc string, corrupt bool) string {
 	// the part after the marker renders differently under the set's TrimBlocks option
-	s := fmt.Sprintf("[%sv%d:{{ setname }}]{%% if true %%}\nT{%% endif %%}", name, ver)
+	s := fmt.Sprintf("[%sv%d@%d:{{ setname }}]{%% if true %%}\nT{%% endif %%}", name, ver, disk)
 	if hasInc {
 		s += `{% include "` + inc + `" %}`
 	}
@@ -105,7 +108,11 @@ func c20TopContent(name string, ver int, hasInc bool, inc string, corrupt bool) 
 
 func c20Gen(tp *Tapes) *c20Spec {
 	g := tp.Gen
-	sp := &c20Spec{Disk: &DiskSpec{Files: map[string][]FileVer{}}}
+	sp := &c20Spec{Disk: &DiskSpec{Files: map[string][]FileVer{}}, Disk1: &DiskSpec{Files: map[string][]FileVer{}}, NLoad: 1}
+	if g.Draw(3) == 2 {
+		sp.NLoad = 2 // a stack of two loaders per set: the first one that has a name wins
+	}
+	disks := []*DiskSpec{sp.Disk, sp.Disk1}
 	nNames := 1 + g.Draw(3)
 	for i := 0; i < nNames; i++ {
 		name := fmt.Sprintf("n%d.tpl", i)
@@ -117,7 +124,13 @@ func c20Gen(tp *Tapes) *c20Spec {
 		hasInc := g.Draw(3) == 1
 		sp.HasInc = append(sp.HasInc, hasInc)
 		absent0 := g.Draw(8) == 7
-		sp.Disk.Files[name] = []FileVer{{Content: c20TopContent(name, 0, hasInc, fmt.Sprintf("inc%d.tpl", i), false), Absent: absent0}}
+		sp.Disk.Files[name] = []FileVer{{Content: c20TopContent(name, 0, 0, hasInc, fmt.Sprintf("inc%d.tpl", i), false), Absent: absent0}}
+		if sp.NLoad == 2 {
+			// where the name lives at first: first disk only, second only, or both
+			place := g.Draw(3)
+			sp.Disk.Files[name][0].Absent = absent0 || place == 1
+			sp.Disk1.Files[name] = []FileVer{{Content: c20TopContent(name, 0, 1, hasInc, fmt.Sprintf("inc%d.tpl", i), false), Absent: place == 0}}
+		}
 		if hasInc {
 			sp.Disk.Files[fmt.Sprintf("inc%d.tpl", i)] = []FileVer{{Content: fmt.Sprintf("(inc%dv0)", i)}}
 		}
@@ -209,7 +222,12 @@ func c20Gen(tp *Tapes) *c20Spec {
 				file = fmt.Sprintf("inc%d.tpl", ni)
 				isInc = true
 			}
-			vers := sp.Disk.Files[file]
+			ed := 0
+			if sp.NLoad == 2 && !isInc {
+				ed = g.Draw(2)
+			}
+			ev.Disk = ed
+			vers := disks[ed].Files[file]
 			nv := len(vers)
 			switch kd := g.Draw(6); {
 			case kd == 5 && anyFault:
@@ -217,7 +235,7 @@ func c20Gen(tp *Tapes) *c20Spec {
 			case kd == 4:
 				ev.Kind = "delete"
 				ev.File, ev.Ver = file, nv
-				sp.Disk.Files[file] = append(vers, FileVer{Absent: true})
+				disks[ed].Files[file] = append(vers, FileVer{Absent: true})
 			case kd == 3:
 				ev.Kind = "corrupt"
 				ev.File, ev.Ver = file, nv
@@ -225,9 +243,9 @@ func c20Gen(tp *Tapes) *c20Spec {
 				if isInc {
 					c = fmt.Sprintf("(inc%dv%d{%% endfor %%}", ni, nv)
 				} else {
-					c = c20TopContent(file, nv, sp.HasInc[ni], fmt.Sprintf("inc%d.tpl", ni), true)
+					c = c20TopContent(file, nv, ed, sp.HasInc[ni], fmt.Sprintf("inc%d.tpl", ni), true)
 				}
-				sp.Disk.Files[file] = append(vers, FileVer{Content: c, Corrupt: true})
+				disks[ed].Files[file] = append(vers, FileVer{Content: c, Corrupt: true})
 			default:
 				ev.Kind = "change"
 				ev.File, ev.Ver = file, nv
@@ -235,9 +253,9 @@ func c20Gen(tp *Tapes) *c20Spec {
 				if isInc {
 					c = fmt.Sprintf("(inc%dv%d)", ni, nv)
 				} else {
-					c = c20TopContent(file, nv, sp.HasInc[ni], fmt.Sprintf("inc%d.tpl", ni), false)
+					c = c20TopContent(file, nv, ed, sp.HasInc[ni], fmt.Sprintf("inc%d.tpl", ni), false)
 				}
-				sp.Disk.Files[file] = append(vers, FileVer{Content: c})
+				disks[ed].Files[file] = append(vers, FileVer{Content: c})
 			}
 			ph.Env = append(ph.Env, ev)
 		}
@@ -251,10 +269,10 @@ func c20Gen(tp *Tapes) *c20Spec {
 const c20MaxNames = 3
 
 type c20State struct {
-	cache [c20MaxNames]int16 // 0 = not cached, else id+1
-	disk  [c20MaxNames]int16 // current version of the top-level file
-	stale [c20MaxNames]bool  // entry survived a Debug-on period: old entry or fresh compile both accepted
-	used  uint64             // ids handed out so far
+	cache [c20MaxNames]int16    // 0 = not cached, else id+1
+	disk  [2][c20MaxNames]int16 // current version of the top-level file on each loader's disk
+	stale [c20MaxNames]bool     // entry survived a Debug-on period: old entry or fresh compile both accepted
+	used  uint64                // ids handed out so far
 	debug bool
 }
 
@@ -268,6 +286,7 @@ const (
 
 type c20In struct {
 	Kind int
+	Disk int
 	Name int
 	Mask int
 	Ver  int
@@ -283,27 +302,42 @@ const (
 )
 
 type c20Out struct {
-	ID      int // -1 on failure
-	Err     bool
-	Cause   int
-	Ver     int // version of the top-level file the operation was served (-1: none)
-	Fetches int // successful+failed top-level Get calls made by the operation
+	ID       int // -1 on failure
+	Err      bool
+	Cause    int
+	Ver      int  // version of the top-level file the operation was served (-1: none)
+	Disk     int  // which loader's disk served it
+	Fetches  int  // successful top-level Get calls made by the operation
+	Attempts int  // all top-level Get calls (a miss asks the loaders in order)
+	Fell     bool // an injected open error on an earlier loader made a later loader serve it
+	Unstable bool // two loaders and the name changed on some disk while the operation was probing them
 }
 
 func c20Model(sp *c20Spec) porcupine.Model {
-	corrupt := func(name, ver int) bool {
-		vs := sp.Disk.Files[sp.Names[name]]
+	files := func(d, name int) []FileVer {
+		if d == 1 {
+			return sp.Disk1.Files[sp.Names[name]]
+		}
+		return sp.Disk.Files[sp.Names[name]]
+	}
+	corrupt := func(d, name, ver int) bool {
+		vs := files(d, name)
 		return ver >= 0 && ver < len(vs) && vs[ver].Corrupt
 	}
-	absent := func(name, ver int) bool {
-		vs := sp.Disk.Files[sp.Names[name]]
+	absent := func(d, name, ver int) bool {
+		vs := files(d, name)
 		return ver < 0 || ver >= len(vs) || vs[ver].Absent
 	}
-	init := c20State{}
-	for i, n := range sp.Names {
-		_ = n
-		init.disk[i] = 0
+	// effective: the first loader that has the name wins
+	effective := func(st *c20State, name int) (int, int, bool) {
+		for d := 0; d < sp.NLoad; d++ {
+			if !absent(d, name, int(st.disk[d][name])) {
+				return d, int(st.disk[d][name]), true
+			}
+		}
+		return 0, -1, false
 	}
+	init := c20State{}
 	return porcupine.Model{
 		Init: func() interface{} { return init },
 		Step: func(state, input, output interface{}) (bool, interface{}) {
@@ -311,7 +345,7 @@ func c20Model(sp *c20Spec) porcupine.Model {
 			in := input.(c20In)
 			switch in.Kind {
 			case c20Disk:
-				st.disk[in.Name] = int16(in.Ver)
+				st.disk[in.Disk][in.Name] = int16(in.Ver)
 				return true, st
 			case c20Debug:
 				if st.debug && !in.On {
@@ -339,20 +373,37 @@ func c20Model(sp *c20Spec) porcupine.Model {
 			}
 			out := output.(c20Out)
 			n := in.Name
+			// served: does (out.Disk, out.Ver) name what a loader stack would serve right now?
+			served := func() bool {
+				if out.Unstable {
+					// the two loaders were asked at different moments with a change in between:
+					// only "what it was served is that disk's current version" can be demanded
+					return out.Ver == int(st.disk[out.Disk][n])
+				}
+				if ed, ev, ok := effective(&st, n); ok && out.Disk == ed && out.Ver == ev {
+					return true
+				}
+				// an injected open error on the first loader legitimately falls through
+				return out.Fell && out.Disk == 1 && out.Ver == int(st.disk[1][n]) && !absent(1, n, out.Ver)
+			}
 			failureLegal := func() bool {
+				if out.Unstable && out.Cause != causeUnexplained {
+					return true
+				}
 				switch out.Cause {
 				case causeOutside:
 					return true
 				case causeEnoent:
-					return absent(n, int(st.disk[n]))
+					_, _, ok := effective(&st, n)
+					return !ok || (out.Fell && absent(1, n, int(st.disk[1][n])))
 				case causeCompile:
-					return out.Ver == int(st.disk[n]) && corrupt(n, out.Ver)
+					return served() && corrupt(out.Disk, n, out.Ver)
 				}
 				return false
 			}
 			freshLegal := func() bool {
 				return !out.Err && out.ID >= 0 && st.used&(1<<uint(out.ID)) == 0 &&
-					out.Fetches == 1 && out.Ver == int(st.disk[n]) && !corrupt(n, out.Ver) && !absent(n, out.Ver)
+					out.Fetches == 1 && out.Attempts <= sp.NLoad && served() && !corrupt(out.Disk, n, out.Ver)
 			}
 			if st.debug {
 				if out.Err {
@@ -365,7 +416,7 @@ func c20Model(sp *c20Spec) porcupine.Model {
 				return true, st
 			}
 			if st.cache[n] != 0 {
-				if !out.Err && out.ID == int(st.cache[n])-1 && out.Fetches == 0 {
+				if !out.Err && out.ID == int(st.cache[n])-1 && out.Attempts == 0 {
 					return true, st // hit
 				}
 				if !st.stale[n] {
@@ -412,7 +463,7 @@ func (c20Checker) Run(tp *Tapes, opt RunOpt) *Outcome {
 	out := &Outcome{}
 	sp := c20Gen(tp)
 	nSets := len(sp.Loaders)
-	w := NewWorld([]*DiskSpec{sp.Disk})
+	w := NewWorld([]*DiskSpec{sp.Disk, sp.Disk1})
 	w.Plan = sp.Plan
 	s := NewSched(tp.Sched, w)
 	s.Strat = sp.strat
@@ -423,13 +474,20 @@ func (c20Checker) Run(tp *Tapes, opt RunOpt) *Outcome {
 	rw := newRaceWatch()
 
 	sets := make([]*pongo2.TemplateSet, nSets)
-	sharedLoader := w.MakeLoader(0, LoaderSpec{Kind: sp.Loaders[0], Disk: 0})
-	for i := range sets {
-		l := sharedLoader
-		if !sp.Shared {
-			l = w.MakeLoader(i, LoaderSpec{Kind: sp.Loaders[i], Disk: 0})
+	mkStack := func(id int, kind string) []pongo2.TemplateLoader {
+		var ls []pongo2.TemplateLoader
+		for d := 0; d < sp.NLoad; d++ {
+			ls = append(ls, w.MakeLoader(id*4+d, LoaderSpec{Kind: kind, Disk: d}))
 		}
-		sets[i] = pongo2.NewSet(fmt.Sprintf("S%d", i), l)
+		return ls
+	}
+	sharedLoaders := mkStack(0, sp.Loaders[0])
+	for i := range sets {
+		l := sharedLoaders
+		if !sp.Shared {
+			l = mkStack(i, sp.Loaders[i])
+		}
+		sets[i] = pongo2.NewSet(fmt.Sprintf("S%d", i), l...)
 		sets[i].Globals["setname"] = fmt.Sprintf("S%d", i)
 		// distinguishing configuration per set (isolation oracle): a ban and an option
 		if err := sets[i].BanTag([]string{"lorem", "templatetag"}[i%2]); err != nil {
@@ -467,12 +525,12 @@ func (c20Checker) Run(tp *Tapes, opt RunOpt) *Outcome {
 				out.probe("heal")
 				return
 			default:
-				w.SetVersion(0, ev.File, ev.Ver)
+				w.SetVersion(ev.Disk, ev.File, ev.Ver)
 			}
 			for ni, n := range sp.Names {
 				if n == ev.File {
 					for si := range sets {
-						hist = append(hist, c20HistOp{Client: maxTasks + 1, What: fmt.Sprintf("disk:%s %s->v%d", ev.Kind, ev.File, ev.Ver), Call: seq, Ret: r, set: si, in: c20In{Kind: c20Disk, Name: ni, Ver: ev.Ver}})
+						hist = append(hist, c20HistOp{Client: maxTasks + 1, What: fmt.Sprintf("disk%d:%s %s->v%d", ev.Disk, ev.Kind, ev.File, ev.Ver), Call: seq, Ret: r, set: si, in: c20In{Kind: c20Disk, Disk: ev.Disk, Name: ni, Ver: ev.Ver}})
 					}
 				}
 			}
@@ -587,25 +645,47 @@ func (c20Checker) Run(tp *Tapes, opt RunOpt) *Outcome {
 				gets := getsOf(st.Task, st.Op)
 				top := sp.Names[op.Name]
 				outside := false
+				openErrEarlier, enoents := false, 0
+				incServed := false
 				for _, g := range gets {
 					if g.Path == top {
-						o.Fetches++
-						if g.Ver >= 0 {
-							o.Ver = g.Ver
-						}
-						if g.Fault == FGetEIO || g.Fault == FReadEIO {
-							outside = true
-						}
-						if g.Fault == FGetEnoent && o.Cause == causeNone {
-							o.Cause = causeEnoent
+						o.Attempts++
+						switch {
+						case g.Fault == FReadEIO:
+							outside = true // the loader had it, reading failed: the load fails
+							o.Ver, o.Disk = g.Ver, g.Disk
+						case g.Ver >= 0:
+							o.Fetches++
+							o.Ver, o.Disk = g.Ver, g.Disk
+							if openErrEarlier && g.Disk > 0 {
+								o.Fell = true
+							}
+						case g.Fault == FGetEIO:
+							openErrEarlier = true
+						case g.Fault == FGetEnoent:
+							enoents++
 						}
 					} else {
-						// an included file
-						if g.Fault == FGetEIO || g.Fault == FReadEIO || g.Fault == FGetEnoent {
+						// an included file: it lives on the first disk; not part of the model
+						switch {
+						case g.Fault == FGetEIO || g.Fault == FReadEIO:
 							outside = true
-						} else if g.Ver >= 0 && sp.Disk.Files[g.Path][g.Ver].Corrupt {
-							outside = true
+						case g.Ver >= 0:
+							incServed = true
+							if w.disks[g.Disk].spec.Files[g.Path][g.Ver].Corrupt {
+								outside = true
+							}
 						}
+					}
+				}
+				if sp.HasInc[op.Name] && o.Fetches > 0 && !incServed {
+					outside = true // the included file could not be obtained from any loader
+				}
+				if o.Fetches == 0 && !outside {
+					if openErrEarlier {
+						outside = true // an injected open error and no loader served the name: the load may fail
+					} else if enoents > 0 {
+						o.Cause = causeEnoent
 					}
 				}
 				if r.pan != "" {
@@ -638,14 +718,14 @@ func (c20Checker) Run(tp *Tapes, opt RunOpt) *Outcome {
 						out.addViolation("cross_set_identity", "FromCache", fmt.Sprintf("sets S%d and S%d returned the same *Template", idSet[id], op.Set), nil, nil)
 					}
 					o.ID = id
-					if o.Fetches == 0 {
+					if o.Attempts == 0 {
 						out.probe("hit")
 					} else {
 						out.probe("miss")
 					}
 				}
 				h.out = o
-				h.Out = fmt.Sprintf("id=%d err=%v cause=%d ver=%d fetches=%d", o.ID, o.Err, o.Cause, o.Ver, o.Fetches)
+				h.Out = fmt.Sprintf("id=%d err=%v cause=%d ver=%d@%d fetches=%d/%d fell=%v", o.ID, o.Err, o.Cause, o.Ver, o.Disk, o.Fetches, o.Attempts, o.Fell)
 				if r.err != "" {
 					h.Out += " msg=" + r.err
 				}
@@ -657,6 +737,18 @@ func (c20Checker) Run(tp *Tapes, opt RunOpt) *Outcome {
 			out.dig(h.What, h.Out)
 		}
 
+		if sp.NLoad == 2 {
+			for i := range hist {
+				if !hist[i].isFrom {
+					continue
+				}
+				for _, e := range hist {
+					if e.in.Kind == c20Disk && e.in.Name == hist[i].in.Name && e.Call > hist[i].Call && e.Call < hist[i].Ret {
+						hist[i].out.Unstable = true
+					}
+				}
+			}
+		}
 		// reach probes over the history
 		c20Probes(out, sp, hist, w)
 
@@ -727,18 +819,18 @@ func (c20Checker) Run(tp *Tapes, opt RunOpt) *Outcome {
 					continue // no operation fetched it: the history check has already objected
 				}
 				op := opSpec[cr.key]
-				topVer, incVer := -1, -1
+				topVer, topDisk, incVer := -1, 0, -1
 				for _, g := range getsOf(cr.key.task, cr.key.op) {
 					if g.Ver < 0 {
 						continue
 					}
 					if g.Path == sp.Names[op.Name] {
-						topVer = g.Ver
+						topVer, topDisk = g.Ver, g.Disk
 					} else {
 						incVer = g.Ver
 					}
 				}
-				exp := fmt.Sprintf("[%sv%d:S%d]", sp.Names[op.Name], topVer, cr.set)
+				exp := fmt.Sprintf("[%sv%d@%d:S%d]", sp.Names[op.Name], topVer, topDisk, cr.set)
 				if cr.set%2 == 0 {
 					exp += "T" // this set has TrimBlocks on
 				} else {
@@ -779,7 +871,7 @@ func (c20Checker) Run(tp *Tapes, opt RunOpt) *Outcome {
 	ph := newHasher()
 	ph.str(fmt.Sprintf("%v%v", sp.Names, sp.Spell))
 	ph.str(fmt.Sprintf("%+v", sp.Phases))
-	ph.str(fmt.Sprintf("%v%v%v", sp.Loaders, sp.HasInc, sp.Shared))
+	ph.str(fmt.Sprintf("%v%v%v%d", sp.Loaders, sp.HasInc, sp.Shared, sp.NLoad))
 	out.ProgHash = uint64(ph)
 	th := hasher(out.TraceHash)
 	th.u64(out.ProgHash)
